@@ -1,7 +1,7 @@
 (* C04 - garbage collection timing never changes what a program observes.  PARTIAL.
    Statements only; proofs are `exact` of lemmas in Misc/GCFacts.v.
 
-   Proved: the logic of _WrapperCache.__gc_callback__ for collections placed at quiescent points
+   Proved: the logic of _WrapperCache.__gc_callback__ (as of /repo e92425d) for collections placed at quiescent points
    (between API calls), over the reference graph of Misc/GC.v with *derived* reference counts and the
    code's thresholds.  Not proved (exercised by harness/props/c04.py only): collections that fire
    inside library calls, CPython's actual reference counts, when the collector runs. *)
@@ -33,38 +33,37 @@ Proof. exact release_empties. Qed.
 Print Assumptions C04_release.
 
 (* every node object the program still references remains the object navigation returns for its
-   position - under the guard "a held head text node's element wrapper (or its document) is also held" *)
-Theorem C04_identity_partial : forall w w', heads_guard w = true -> gc_step w = Some w' ->
+   position (unconditional since /repo e92425d: a referenced head text object keeps its wrapper) *)
+Theorem C04_identity : forall w w', gc_step w = Some w' ->
   Forall2 (fun e e' => e_id e' = e_id e /\
                        forall wh o, In o (held w) -> obj_at e wh = Some o -> obj_at e' wh = Some o) (ents w) (ents w').
 Proof. exact identity_kept. Qed.
-Print Assumptions C04_identity_partial.
+Print Assumptions C04_identity.
 
-(* edits made through a referenced text node take effect in the tree (same guard) *)
-Theorem C04_edit_partial : forall w w' o n, heads_guard w = true -> gc_step w = Some w' -> In o (held w) ->
+(* edits made through a referenced text node take effect in the tree *)
+Theorem C04_edit : forall w w' o n, gc_step w = Some w' -> In o (held w) ->
   content (append_after o n w') = content (append_after o n w).
 Proof. exact edits_take_effect. Qed.
-Print Assumptions C04_edit_partial.
+Print Assumptions C04_edit.
 
-(* full statements (without heads_guard) are false of the faithful model (finding 7): parse
-   <root><a/>tail</root>, hold only root[1] (the tail text of <a>), collect: the wrapper of <a> is
-   evicted, navigation will create a fresh text object, and "X" appended through the held one is lost *)
+(* REGRESSION example (finding C04-held-head-text, fixed by e92425d): parse <root><a/>tail</root>, hold
+   only root[1] (the tail text of <a>), collect.  The rule before the fix (keep_old, which never looked
+   at head text objects) evicts the wrapper of <a>; the current rule keeps it, the held object stays
+   the one navigation returns and "X" appended through it reaches the tree. *)
 Definition witness7 : world :=
   mk_world [ mk_entry 0 None None (Some (mk_wrapper 1 true (Some 100) 10 [] 11 []));
              mk_entry 1 None (Some [116; 97; 105; 108]%N) (Some (mk_wrapper 2 true None 12 [] 13 [])) ] 0 [13].
-Theorem C04_identity_refuted : exists w w' e e' o,
-  gc_step w = Some w' /\ In o (held w) /\ nth_error (ents w) 1 = Some e /\ nth_error (ents w') 1 = Some e' /\
-  obj_at e WTailHead = Some o /\ obj_at e' WTailHead = None /\
-  content (append_after o (mk_tobj 99 [88%N]) w') <> content (append_after o (mk_tobj 99 [88%N]) w).
-Proof.
-  exists witness7. eexists. eexists. eexists. exists 13.
-  split; [vm_compute; reflexivity|]. split; [left; reflexivity|]. split; [reflexivity|]. split; [reflexivity|].
-  split; [reflexivity|]. split; [reflexivity|]. vm_compute. discriminate.
-Qed.
-Print Assumptions C04_identity_refuted.
+Example C04_identity_regression :
+  let a := mk_wrapper 2 true None 12 [] 13 [] in
+  keep_old witness7 a = false /\ keep witness7 a = true /\
+  enc_survivors (gc_step witness7) = [1; 1]%N /\
+  option_map (fun w' => map (fun e => obj_at e WTailHead) (ents w')) (gc_step witness7) = Some [None; Some 13] /\
+  option_map (fun w' => content (append_after 13 (mk_tobj 99 [88%N]) w')) (gc_step witness7)
+    = Some (content (append_after 13 (mk_tobj 99 [88%N]) witness7)).
+Proof. vm_compute. repeat split. Qed.
 
 (* adjacent text nodes are coalesced only when the program holds no reference to them: a held appended
-   text object keeps its place in its chain (no guard needed) *)
+   text object keeps its place in its chain *)
 Theorem C04_coalesce : forall w w', gc_step w = Some w' ->
   Forall2 (fun e e' => forall k o, In o (held w) ->
      (obj_at e (WDataApp k) = Some o -> obj_at e' (WDataApp k) = Some o) /\
@@ -72,14 +71,14 @@ Theorem C04_coalesce : forall w w', gc_step w = Some w' ->
 Proof. exact coalesce_only_unheld. Qed.
 Print Assumptions C04_coalesce.
 
-(* non-vacuity: a world with chains where the guards hold, one wrapper survives through a held
+(* non-vacuity: a world with chains where the guard holds, one wrapper survives through a held
    appended text object, one through the held document, one is evicted and its chain merged *)
 Example C04_example :
   let w := mk_world [ mk_entry 0 (Some [97%N]) None (Some (mk_wrapper 1 true (Some 100) 10 [mk_tobj 20 [43%N]] 11 []));
                       mk_entry 1 None (Some [98%N]) (Some (mk_wrapper 2 true None 12 [] 13 [mk_tobj 21 [43%N]; mk_tobj 22 [45%N]]));
                       mk_entry 2 (Some [99%N]) (Some [100%N]) (Some (mk_wrapper 3 false None 14 [] 15 [mk_tobj 23 [43%N]])) ]
                     0 [100; 22] in
-  heads_guard w = true /\ slots_guard w = true /\
+  slots_guard w = true /\
   enc_survivors (gc_step w) = [1; 0; 1]%N /\
   option_map content (gc_step w) = Some (content w) /\
   content w = [(0, [97%N; 43%N], []); (1, [], [98%N; 43%N; 45%N]); (2, [99%N], [100%N; 43%N])].
